@@ -500,6 +500,35 @@ def d_ones_if_none(E, fv, st, node, prog):
     return v
 
 
+def _occurs(t, v):
+    seen = set()
+    todo = [t]
+    while todo:
+        x = todo.pop()
+        if x.get_id() in seen:
+            continue
+        seen.add(x.get_id())
+        if x.eq(v):
+            return True
+        if z3.is_quantifier(x):
+            todo.append(x.body())
+        elif z3.is_app(x):
+            todo.extend(x.children())
+    return False
+
+
+def _lambda_eta(consts, body):
+    """Lambda consts. body, eta-reduced from the inside (lambda c: X[c] with c not in X becomes X): the normal
+    form z3 itself produces for views and gathers, so that equal arrays are equal terms for every solver"""
+    consts = list(consts)
+    while consts and z3.is_select(body) and body.arg(1).eq(consts[-1]) and not _occurs(body.arg(0), consts[-1]):
+        body = body.arg(0)
+        consts.pop()
+    for c in reversed(consts):
+        body = z3.Lambda([c], body)
+    return body
+
+
 def d_arr2(E, fv, st, node, prog):
     """arr2(lambda h, j: e): the 2-D integer array value with elements e (fixed bound names so that
     equal definitions give identical terms)"""
@@ -511,9 +540,7 @@ def d_arr2(E, fv, st, node, prog):
     for n, c in zip(names, consts):
         s.env[n] = SInt(c)
     body = fv.as_int(fv.ev(lam.body, s, False)).e
-    t = body
-    for c in reversed(consts):
-        t = z3.Lambda([c], t)
+    t = _lambda_eta(consts, body) if len(consts) > 1 else z3.Lambda([consts[0]], body)
     return SArrVal("i8", [z3.IntVal(0)] * len(names), {"v": t})
 
 
